@@ -259,7 +259,8 @@ namespace Pistache::Http::Header
             {
                 // delta-seconds is mandatory for the parser, also when it is 0
                 auto delta = d.delta();
-                os << "=" << delta.count();
+                // (as text: protocol elements must not depend on the stream's locale)
+                os << "=" << std::to_string(delta.count());
             }
 
             if (i < directives_.size() - 1)
@@ -334,7 +335,12 @@ namespace Pistache::Http::Header
         }
     }
 
-    void ContentLength::write(std::ostream& os) const { os << value_; }
+    void ContentLength::write(std::ostream& os) const
+    {
+        // as text: a number inserted into the stream is formatted by the
+        // stream's locale ("1,234" where the locale groups digits)
+        os << std::to_string(value_);
+    }
 
     // What type of authorization method was used?
     Authorization::Method Authorization::getMethod() const noexcept
@@ -529,7 +535,7 @@ namespace Pistache::Http::Header
   */
         if (port_ != 0)
         {
-            os << ":" << port_;
+            os << ":" << port_.toString();
         }
     }
 
